@@ -92,12 +92,14 @@ passes unedited after each -- the four `middleware/proxy` tests that need DNS fa
 | C03 | `6150301` | `RoutePatternMatch` ignored `UnescapePath` and evaluated constraints on the case-folded path |
 | C03/C01 | `d91bf3b` | `/a/:x?` (and `/a/*`, `/a/+` ...) answered 404 for `/a`: route indexed under its 3-byte prefix, 2-byte path looks in the global tree |
 | C01 | `46a663b` | after `Path()`/`Method()` override the old tree index was reused: middleware ran twice / later matching routes answered 404 |
+| C01 | `6bd4617` | `Use(/, override->POST); Get(/); Use(/, h)`: `h` never ran for `GET /` (the POST stack had merged the two `Use(/)`); `Use(/a); Post(/); Use(/a, override)` ran the overriding middleware twice |
 | C04 | `c8ee2b3` | under a parameterised mount prefix the mounted handler never ran or saw shifted `Params`; root/star flags lost by mounting |
 | C08 | `b918f62` | mounted error handler chosen without segment boundary (`/api` handler answered `/apix/boom`), map-order dependent, shadowing |
 | C13 | `d080fab` | sliding window ignored `MaxFunc` |
 | C13 | `eaf1939` | a skipped request that outlives its window was un-counted in the next window (limit + 1 admitted) |
 | C14 | `a67f42a` | external storage + invalidation of an absent key + `MaxBytes`: `heap.remove` on an empty heap panics under the mutex |
 | C14 | `bd72493` | entry fetched before the lock: two requests expiring the same entry both remove its heap index (panic + deadlock) |
+| C14 | `ce6213b` | `StoreResponseHeaders`: a repeated origin header (`X-Multi: a`, `X-Multi: b`) was served from the cache with its last value only |
 | C18 | `def2740` `335f592` `fa3377b` | cookie jar: purge without write-back, duplicate append / ignored deletions, keys aliasing request buffers and carrying the port |
 | C18 | `fbc241a` | client timeout released a Response the worker was about to fill (`acquire answer cancel deliver`) |
 | C18 | `fd7a868` | path parameter value `a b&c=d?e` arrived cut at `?` |
@@ -139,6 +141,16 @@ none is listed as a finding and no check was loosened below what its statement s
   invariants after `Tick`. **C09.** 406 is a status not an error; default handler with absent `Accept` not asserted. **C07.** 404 for a space
   in the target is legitimate; only CR / LF / NUL are rejected in values. **C11.** body codecs are not comma-split; comma-carrying values
   under splitting are not compared; the handler must read the status *before* `c.Status(422)`.
+* **C18 (thorough tier only).** A cookie put into the jar directly with a 2 s lifetime and read after a 2 s tick sits exactly on its
+  deadline, where the jar's two code paths (`Before` / `After`) disagree and the statement says nothing; cookies that travel over HTTP never
+  do (their `Expires` has whole seconds). The driver now sets direct cookies a quarter second off the tick grid. The quick tier's 200
+  histories had never produced the case; 1 500 did.
+* **Scheduler (C13, C14, C17), seen once in ~15 runs on a busy machine.** "Nobody can be released and not everybody is done" was reported
+  as a deadlock although the run was healthy: a goroutine had been sampled in a *transient* mutex wait (the classification reads wait
+  reasons from `runtime.Stack`). Before a deadlock is reported the blocked goroutines are now re-examined in real time (raw `nanosleep` /
+  `gettimeofday`, which also work inside a synctest bubble) for 400 ms (60 ms after ten confirmed deadlocks in one process, so that a code
+  change that deadlocks most schedules does not make the exploration crawl); the number of rescues is in the evidence
+  (`transient_blocks_resolved_by_patience`).
 * **Harness errors** (would have discredited real rejections): unlock events logged after the release were reordered against the next
   lock -> log before release, lock events after acquisition; a double `resp.Close()` put one Response into the pool twice; pooled `*Request`
   identity is unreliable -> second hook + goroutine-id mapping; a recycled `RequestCtx` needs `ResetUserValues()`; flash parsing needs
